@@ -710,7 +710,7 @@ def check_trace(log, root, commits, cut_images, answers, workdir, label="", opts
                 li = ab.events[k][0]
                 desc = "%sproto_okb rejects event %d `%s` (log line %d): obligation %s; the batch is logged again only afterwards: %s" % (
                     label, k, toks[k], li, OBLIGATION[2], " ".join(toks[max(0, k - 8):k + 6]))
-                res.setdefault("findings", []).append(("flush_before_relog_part_of_txn", desc, "# " + desc + "\n# workload: " + " ; ".join(l[3:] for l in (script1 or [])[1:]) + "\n"))
+                res.setdefault("findings", []).append(("flush_before_relog_window", desc, "# " + desc + "\n# workload: " + " ; ".join(l[3:] for l in (script1 or [])[1:]) + "\n"))
                 res["stats"]["rejected"] = 1
                 m = None
                 verdict = "classified"
